@@ -155,8 +155,17 @@ def write_xvg(path: str, es: dict, rows: list):
     lines += at
     for i, leg in enumerate(es["legends"]):
         lines.append(f'@ s{i} legend "{leg}"\n')
+    style = es.get("line_style", "plain")
     for row in rows:
-        lines.append(" ".join(row) + "\n")
+        toks = [t.strip() for t in row] if style != "plain" else row
+        if style == "trailing_blank":
+            lines.append(" ".join("%-14s" % t for t in toks) + "\n")      # left-aligned fixed-width fields
+        elif style == "tabs":
+            lines.append("\t".join(toks) + "\n")
+        elif style == "wide_gaps":
+            lines.append("   " + "      ".join(toks) + "\n")
+        else:
+            lines.append(" ".join(row) + "\n")
     with open(path, "w", encoding="utf-8") as f:
         f.writelines(lines)
 
@@ -405,6 +414,7 @@ def gen_energy_spec(rng: random.Random, sigma=None, fmt=None, simple: bool = Fal
     whole = sigma is None and rng.random() < 0.12
     return {"fmt": fmt or rng.choice(["xvg", "xvg", "csv"]), "legends": legends, "column": column, "n_hash": n_hash,
             "half_range": half_range, "whole_numbers": whole, "dup_frac": rng.choice([0, 0, 0, 0.1, 0.5]),
+            "line_style": rng.choice(["plain", "plain", "plain", "trailing_blank", "tabs", "wide_gaps"]),
             "n_at": rng.choice([10, 10, 0, 3, 14, rng.randint(0, 12)]), "sigma": sigma if sigma is not None else rng.choice([0.5, 1, 2, 3, 3, 5, 20]),
             "offset": rng.choice([0.0, -40.0, 12.5]), "seed": rng.randrange(2 ** 32),
             "numfmt": "gmx" if simple else rng.choice(["gmx", "gmx", "gmx_e", "repr", "g17"]),
@@ -465,14 +475,16 @@ class PipelineCheck(Check):
         T = rng.choice([200.0, 250.0, 273.0, 300.0, 300.0, 350.0, 400.0, round(rng.uniform(230, 400), 1)])
         es = gen_energy_spec(rng)
         if spec["n_t"] >= 5 and rng.random() < 0.7:
-            es["ramp"] = {"slope": rng.choice([100.0, 300.0, 450.0, -450.0]), "n_b": spec["n_b"], "n_o": spec["n_o"]}
+            es["ramp"] = {"slope": rng.choice([100.0, 300.0, 450.0, -450.0, 480.0, -480.0]), "n_b": spec["n_b"],
+                          "n_o": spec["n_o"]}
             es["half_range"] = None
             es["sigma"] = 999
             es["dup_frac"] = 0  # a repeated line would put an energy of another shell next door (beyond the cap)
-        if es.get("half_range"):
+        if es.get("half_range") or es.get("ramp"):
             # wide spreads are there to approach the documented 500 kJ/mol cap from below: pair them with low
             # temperatures, where the exponents are largest
-            T = rng.choice([200.0, 200.0, 215.0, 230.0, 250.0, 273.0, 300.0])
+            # (sometimes cryogenic ones: physical, and where exponentials are closest to overflow)
+            T = rng.choice([200.0, 200.0, 215.0, 230.0, 250.0, 273.0, 300.0, 77.0, 77.0, 100.0, 150.0])
         Dconst = 10 ** rng.uniform(-3, 3)
         # solver
         sel, which = rng.choice(SOLVER_TOP + SOLVER_TOP + SOLVER_OTHER)
